@@ -270,8 +270,7 @@ def one_program(ctx, B, h, wa, name, path):
     return res
 
 
-def run_programs(ctx, B, h, dist, samples, nontrivial):
-    wa = ctx.build_wa()
+def run_programs(ctx, B, h, wa, dist, samples, nontrivial):
     quick = ctx.tier == "quick"
     ex = example_programs()
     if quick:
